@@ -136,9 +136,26 @@ def is_tok(v, toks):
     return any(v == t for t in toks)
 
 
+UNSLOT = ('std::mem::ManuallyDrop::into_inner', 'std::mem::ManuallyDrop::take', 'std::mem::MaybeUninit::assume_init',
+          'std::mem::MaybeUninit::assume_init_read', 'std::ptr::read')
+
+
+def unslot(v, toks):
+    """v == ManuallyDrop::into_inner(slot) / slot.assume_init() / slot.assume_init_read() / ptr::read(&slot) where slot wraps
+    the token: the payload moved back out of its slot, by value"""
+    if isinstance(v, tuple) and v and v[0] == 'call' and v[2] in UNSLOT and v[3]:
+        a = v[3][-1]
+        if slot_of(a, toks):
+            return True
+        ss = ref_snapshot(a)
+        if ss is not None and slot_of(ss, toks):
+            return True
+    return False
+
+
 def owns(v, toks, depth=0):
     """v is the token or a by-value aggregate that holds it"""
-    if is_tok(v, toks):
+    if is_tok(v, toks) or unslot(v, toks):
         return True
     if depth < 4 and isinstance(v, tuple) and v and v[0] == 'agg':
         return any(owns(f, toks, depth + 1) for f in v[3])
